@@ -90,6 +90,22 @@ def convert(E, method, dc, dc_unit, ec, ec_unit):
     else:
         want = float(a_ref) * float(arg) + float(b_ref)
         E.claim('magnitude==textbook', abs(float(mag) - want) <= 1e-9 * max(abs(want), abs(float(b_ref)), 1e-300))
+    # a scalar zero is valid numeric input (linearity: f(0) = b)
+    if method != 'toVolumeFraction':
+        q0, exc0 = E.expect_no_raise('%s(0.0)-returns' % method, lambda: getattr(uc, method)(0.0))
+        if exc0 is None and not E.sym:
+            E.claim('%s(0.0)==b' % method, abs(float(q0.magnitude) - float(b_ref)) <= 1e-9 * max(abs(float(b_ref)), 1e-300) + 1e-300)
+        elif exc0 is None:
+            E.claim_true('%s(0.0)==b' % method, abs(Fraction(float(q0.magnitude)) - b_ref) <= abs(b_ref) / 10 ** 9 + Fraction(1, 10 ** 30))
+    # the two wavenumber conversions on ONE converter, in both orders, stay consistent (no shared cached factor)
+    if method in ('toInvAngstrom', 'toInvNanometer'):
+        other = 'toInvNanometer' if method == 'toInvAngstrom' else 'toInvAngstrom'
+        qo, exco = E.expect_no_raise('%s-after-%s-returns' % (other, method), lambda: getattr(uc, other)(x))
+        qm, excm = E.expect_no_raise('%s-again-returns' % method, lambda: getattr(uc, method)(x))
+        if exco is None and excm is None:
+            E.claim_eq('%s-unchanged-after-%s' % (method, other), qm.magnitude, mag)
+            ang, nm = (mag, qo.magnitude) if method == 'toInvAngstrom' else (qo.magnitude, mag)
+            E.claim_eq('k[1/nm]==10*k[1/angstrom]', nm, ang * 10.0)
     # elementwise on arrays
     arr = _np.empty(2, dtype=object if E.sym else float)
     arr[0] = x; arr[1] = E.real('x2', default=-0.4)
